@@ -2,74 +2,71 @@
 (***************************************************************************)
 (* C17: the query-string lexer of query_string_lex.go run as a state       *)
 (* machine -- one action per input character (Lex() re-offering a          *)
-(* character that a state did not consume is inside Feed).  TLC explores   *)
-(* every input over the lexer-significant alphabet up to MaxLen and checks *)
-(* the lexer invariants, in particular that the end of input always takes  *)
-(* the lexer to a halting state: a token stream ("end") or the             *)
-(* unterminated-quote error -- it is never stuck.                          *)
+(* character that a state did not consume is inside Feed) -- together with *)
+(* the outcome parseQuerySyntax would produce if the input ended here.     *)
+(* TLC explores EVERY input over the lexer-significant alphabet up to      *)
+(* MaxLen.  It checks the lexer invariants, in particular that the end of  *)
+(* input always takes the lexer to a halting state: a token stream or the  *)
+(* unterminated-quote error -- it is never stuck; and it computes for      *)
+(* every input the expected outcome `res` (accept/reject and the abstract  *)
+(* clause list), which the harness replays into the real parser.           *)
 (***************************************************************************)
 EXTENDS QueryString
 
-CONSTANTS Alphabet, MaxLen
+CONSTANTS Alphabet, MaxLen,
+          BatchLen          \* inputs up to this length are also checked against
+                            \* the from-scratch definitions LexRun / Result
 
 VARIABLES w,     \* the input consumed so far
-          ls     \* the lexer record after consuming it
+          ls,    \* the lexer record after consuming it
+          res    \* Finish(w, ls): the outcome if the input ends here
 
-Init == w = <<>> /\ ls = LexInit
+Init == w = <<>> /\ ls = LexInit /\ res = AcceptNone
 Next == /\ Len(w) < MaxLen
-        /\ \E ch \in Alphabet : w' = Append(w, ch) /\ ls' = Feed(ls, ch)
-Spec == Init /\ [][Next]_<<w, ls>>
+        /\ \E ch \in Alphabet :
+             /\ w' = Append(w, ch)
+             /\ ls' = Feed(ls, ch)
+             /\ res' = Finish(w', ls')
+Spec == Init /\ [][Next]_<<w, ls, res>>
 
 \* ---- invariants
-\* every character is consumed within 3 offers, every end of input halts
-\* within 3 state steps (FeedN with bound 4 never runs out)
-RECURSIVE Offers(_, _, _, _)
-Offers(l, ch, eof, n) ==       \* number of Step calls FeedN needs, 99 if > n
-  IF Halted(l) THEN 0
-  ELSE IF n = 0 THEN 99
-  ELSE LET r == Step(l, ch, eof)
-       IN IF r.c /\ ~eof THEN 1 ELSE 1 + Offers(r.ls, ch, eof, n - 1)
+Fin == FeedEOF(ls)       \* the lexer after the end of input
 
+\* a character is consumed, and the end of input halts the lexer, within the
+\* re-offering bound; halting means token stream or unterminated quote
 NeverStuck ==
-  /\ Halted(FeedEOF(ls))
-  /\ Offers(ls, 0, TRUE, 4) <= 3
-  /\ \A ch \in Alphabet : Offers(ls, ch, FALSE, 4) <= 3
+  /\ ls.st # "stuck"
+  /\ Fin.st \in {"end", "error"}
 
 \* while characters arrive the lexer neither halts nor fails; the only
 \* lexical error is the end of input inside a phrase
 ErrorsOnlyAtEOF ==
   /\ ~Halted(ls)
-  /\ (FeedEOF(ls).st = "error") <=> (ls.st = "phrase")
+  /\ (Fin.st = "error") <=> (ls.st = "phrase")
 
-\* the state machine run incrementally equals the lexer run from scratch
-IncrementalIsBatch == ls = LexRun(w)
+\* the state machine run incrementally equals the definitions from scratch
+\* (checked on the inputs of length <= BatchLen)
+IncrementalIsBatch == Len(w) <= BatchLen => (ls = LexRun(w) /\ res = Result(w))
 
 \* token shapes the grammar actions rely on
 TokenShapes ==
-  \A i \in 1..Len(FeedEOF(ls).toks) :
-    LET t == FeedEOF(ls).toks[i] IN
-    /\ t.t \in {"STRING", "NUMBER", "BOOST", "TILDE"} => Len(t.s) > 0
-    /\ t.t = "NUMBER" => ValidUnsigned(t.s) /\ IsDigit(t.s[1])
-    /\ t.t \in {"PLUS", "MINUS", "COLON", "GREATER", "LESS", "EQUAL"} => t.s = <<>>
+  LET toks == Fin.toks IN
+  \A i \in 1..Len(toks) :
+    /\ toks[i].t \in {"STRING", "NUMBER", "BOOST", "TILDE"} => Len(toks[i].s) > 0
+    /\ toks[i].t = "NUMBER" => ValidUnsigned(toks[i].s) /\ IsDigit(toks[i].s[1])
+    /\ toks[i].t \in {"PLUS", "MINUS", "COLON", "GREATER", "LESS", "EQUAL"} => toks[i].s = <<>>
 
-\* buf is empty between tokens; seenDot only inside a number; the operator
-\* state holds exactly its character
+\* buf is empty between tokens; the operator state holds exactly its character
 BufDiscipline ==
   /\ ls.st = "start" => ls.buf = <<>> /\ ~ls.dot
   /\ ls.st = "op" => Len(ls.buf) = 1 /\ ~ls.esc
   /\ ls.dot => ls.st \in {"numstr", "str"}     \* seenDot survives the move to inStrState
   /\ ls.st \in {"numstr", "str"} => Len(ls.buf) > 0
 
-\* nothing is invented: tokens never hold more characters than were read
-\* (an unescapable escaped character keeps its backslash, so also never fewer
-\* than the non-blank, non-operator characters -- not claimed here)
-NoInvention ==
-  LET fin == FeedEOF(ls)
-      total == IF fin.toks = <<>> THEN 0
-               ELSE LET S(i) == Len(fin.toks[i].s) IN
-                    LET RECURSIVE Sum(_)
-                        Sum(i) == IF i = 0 THEN 0 ELSE S(i) + Sum(i - 1)
-                    IN Sum(Len(fin.toks))
-      defaults == Cardinality({i \in 1..Len(fin.toks) : fin.toks[i].t \in {"BOOST", "TILDE"}})
-  IN total <= Len(w) + defaults
+\* outcomes are well formed: an accepted non-empty input has between one
+\* clause and one clause per token; a rejected one has none
+OutcomeShape ==
+  /\ res.ok /\ ~res.none => Len(res.cl) >= 1 /\ Len(res.cl) <= Len(Fin.toks)
+  /\ ~res.ok \/ res.none => res.cl = <<>>
+  /\ res.none <=> w = <<>>
 =============================================================================
